@@ -35,6 +35,23 @@ WrapperDraw(Std(_, _, _), kind, par, script, cursor) ==
   LET r == Std(BaseParams(kind, par), script, cursor)
   IN [val |-> IF r.ex THEN r.val ELSE Decorate(kind, r.val), cursor |-> r.cursor, ex |-> r.ex]
 
+(* ---- distributions with hidden state.  A standard distribution may keep hidden state between
+   draws (std::normal_distribution produces values in pairs and caches the second one).  The
+   hidden state is abstract - "a function of the draws since the last reset":
+        StdH(params, hidden, script, cursor) = [val, cursor, ex, hidden]   (hidden = the new state)
+   A wrapper has no hidden state of its own; its state IS the wrapped distribution's:
+     * a draw passes the hidden state through the wrapped draw,
+     * reset() returns the wrapped distribution to its INITIAL hidden state and leaves the
+       parameters alone, so that the wrapper's future equals that of a fresh standard
+       distribution with the same parameters on the same engine state,
+     * param(p) / operator()(rng, p) / min() / max() / == / << are the wrapped members on the
+       base parameters (lock-step with the standard distribution is all the property says). *)
+WrapperDrawH(StdH(_, _, _, _), kind, par, hidden, script, cursor) ==
+  LET r == StdH(BaseParams(kind, par), hidden, script, cursor)
+  IN [val |-> IF r.ex THEN r.val ELSE Decorate(kind, r.val), cursor |-> r.cursor, ex |-> r.ex, hidden |-> r.hidden]
+
+WrapperReset(initialHidden, hidden) == initialHidden
+
 \* enum distribution: all enumerators, i.e. the closed interval [0, max_value]
 EnumParams(maxIndex) == [a |-> Decorate("enum", 0), b |-> Decorate("enum", maxIndex)]
 
